@@ -153,6 +153,9 @@ def compare(sc, r, model, want_streams=True, want_ops=True, want_log=True, drive
     unfinished = [l for l, f in r.finished.items() if not f]
     if unfinished:
         diffs.append({'what': 'unfinished-threads', 'threads': unfinished})
+    if getattr(r, 'killed', None):
+        # Server.run() returned while threads it started (daemons) were still running: they die with the process
+        diffs.append({'what': 'unfinished-threads', 'threads': r.killed, 'how': 'still running when Server.run() ended'})
     for p in SEATS:
         if r.outs[p].get('end') != 'End of session':
             diffs.append({'what': 'client-did-not-see-end-of-session', 'seat': p, 'got': r.outs[p].get('end'),
